@@ -2,8 +2,10 @@ package props
 
 import (
 	"context"
+	"encoding/json"
 	"fmt"
 	"net/http"
+	"net/http/httptest"
 	"net/url"
 	"reflect"
 	"strings"
@@ -124,10 +126,85 @@ func (c *c20) isolation(tape *kernel.Tape, n int) {
 	rpNode, _ := world.BuildRP(ctx, w, world.RPOptions{Client: "web", Secret: "secret-web", Host: "web.sim", Redirect: "https://web.sim/callback", Scopes: []string{oidc.ScopeOpenID},
 		PKCE: true, Cookies: true, KeySeed: 21, AuthStyle: oauth2.AuthStyleInHeader, SigAlgs: []string{string(w.SigAlg)}})
 	browsers := []*world.Browser{w.Net.NewBrowser("cb0"), w.Net.NewBrowser("cb1")}
+	// reference instances: what each of them answers to one fixed discovery request (a request that carries a Host,
+	// a Forwarded header and two custom forwarding headers) must stay what it was when the instance was created
+	type refInst struct {
+		name string
+		h    http.Handler
+		want string
+	}
+	var refs []*refInst
+	fingerprint := func(h http.Handler) (out string) {
+		defer func() {
+			if r := recover(); r != nil {
+				out = fmt.Sprint("panic: ", r)
+			}
+		}()
+		req := httptest.NewRequest("GET", "https://fp.sim/.well-known/openid-configuration", nil)
+		req.Header.Set("Forwarded", "host=fwd.sim")
+		req.Header.Set("X-Tenant", "host=tenant.sim")
+		req.Header.Set("X-Other", "host=other.sim")
+		rec := httptest.NewRecorder()
+		h.ServeHTTP(rec, req)
+		var doc map[string]any
+		if rec.Code != 200 || json.Unmarshal(rec.Body.Bytes(), &doc) != nil {
+			return fmt.Sprintf("status %d", rec.Code)
+		}
+		var parts []string
+		for _, k := range kernel.SortedKeys(doc) {
+			v := doc[k]
+			if sv, ok := v.(string); ok && (strings.HasSuffix(k, "_endpoint") || k == "jwks_uri" || k == "check_session_iframe") {
+				// where the endpoints live is judged by the endpoint invariant below; here only the issuer part counts
+				if u, err := url.Parse(sv); err == nil {
+					v = u.Scheme + "://" + u.Host
+				}
+			}
+			parts = append(parts, fmt.Sprintf("%s=%v", k, v))
+		}
+		return strings.Join(parts, "; ")
+	}
+	addRef := func(name string, p *op.Provider) {
+		refs = append(refs, &refInst{name: name, h: p, want: fingerprint(p)})
+	}
+	// header names owned by the caller (e.g. a package-level list reused for every tenant's provider)
+	callerHeaders := []string{"x-other", "x-tenant"}
+	callerHeadersBefore := strings.Join(callerHeaders, ",")
 	steps(c.o, tape, n, func(i int, ch *kernel.Chooser) string {
 		c.step = i
 		var desc string
-		switch ch.Int(10) {
+		switch ch.Int(13) {
+		case 10: // issuer from the Forwarded header (default header list)
+			p, err := op.NewProvider(w.Conf, w.OP.Storage, op.IssuerFromForwardedOrHost(""), op.WithLogger(world.Discard))
+			desc = fmt.Sprintf("construct provider with issuer from Forwarded header (%v)", err)
+			if err == nil {
+				addRef(fmt.Sprintf("forwarded-default#%d", i), p)
+				if iss := issuerOf(refs[len(refs)-1].want); iss != "https://fwd.sim" {
+					c.viol("instance-not-isolated", "op.Provider/issuer", "after %q: a provider created with the default Forwarded strategy answers with issuer %q, expected https://fwd.sim", desc, iss)
+				}
+			}
+		case 11: // issuer from custom forwarding headers: the header list is the caller's
+			hs := callerHeaders
+			if ch.Bool(1, 2) {
+				hs = callerHeaders[1:]
+			}
+			want := "https://" + strings.TrimPrefix(hs[0], "x-") + ".sim"
+			p, err := op.NewProvider(w.Conf, w.OP.Storage, op.IssuerFromForwardedOrHost("", op.WithIssuerFromCustomHeaders(hs...)), op.WithLogger(world.Discard))
+			desc = fmt.Sprintf("construct provider with issuer from custom headers %v (%v)", hs, err)
+			if err == nil {
+				addRef(fmt.Sprintf("forwarded-custom#%d", i), p)
+				if iss := issuerOf(refs[len(refs)-1].want); iss != want {
+					c.viol("instance-not-isolated", "op.Provider/issuer", "after %q: issuer %q, expected %q", desc, iss, want)
+				}
+			}
+		case 12: // issuer from the request host
+			p, err := op.NewProvider(w.Conf, w.OP.Storage, op.IssuerFromHost(""), op.WithLogger(world.Discard))
+			desc = fmt.Sprintf("construct provider with issuer from host (%v)", err)
+			if err == nil {
+				addRef(fmt.Sprintf("from-host#%d", i), p)
+				if iss := issuerOf(refs[len(refs)-1].want); iss != "https://fp.sim" {
+					c.viol("instance-not-isolated", "op.Provider/issuer", "after %q: issuer %q, expected https://fp.sim", desc, iss)
+				}
+			}
 		case 9: // two logins through one relying party's handler, interleaved by the scheduler: neither may see the other's PKCE challenge
 			if rpNode == nil {
 				desc = "concurrent logins: no relying party"
@@ -192,6 +269,7 @@ func (c *c20) isolation(tape *kernel.Tape, n int) {
 			desc = fmt.Sprintf("construct provider with default endpoints (%v)", err)
 			if err == nil {
 				providers = append(providers, p)
+				addRef(fmt.Sprintf("static#%d", i), p)
 			}
 		case 2:
 			if sess == nil || sess.tokens == nil {
@@ -253,6 +331,18 @@ func (c *c20) isolation(tape *kernel.Tape, n int) {
 		} else if !follows() {
 			c.viol("caller-object-mutated", "http.Client/behaviour", "after %q: the caller's client no longer follows redirects", desc)
 		}
+		if got := strings.Join(callerHeaders, ","); got != callerHeadersBefore {
+			c.viol("caller-object-mutated", "op.WithIssuerFromCustomHeaders/headers", "after %q: the caller's header list was rewritten: %s -> %s", desc, callerHeadersBefore, got)
+			callerHeaders = strings.Split(callerHeadersBefore, ",")
+		}
+		for _, ref := range refs {
+			if got := fingerprint(ref.h); got != ref.want {
+				c.viol("instance-not-isolated", "op.Provider/discovery", "after %q: provider %s answers the same discovery request differently than when it was created:\n  then: %s\n  now:  %s", desc, ref.name, ref.want, got)
+				ref.want = got
+				break
+			}
+		}
+		c.o.ProbeN("reference-instances-compared", len(refs))
 		for _, p := range providers {
 			if p.TokenEndpoint().Relative() != "/oauth/token" || p.AuthorizationEndpoint().Relative() != "/authorize" || p.UserinfoEndpoint().Relative() != "/userinfo" || p.KeysEndpoint().Relative() != "/keys" {
 				c.viol("instance-not-isolated", "op.Provider/endpoints", "after %q: a provider created with default endpoints now has token=%s auth=%s userinfo=%s keys=%s", desc,
@@ -263,6 +353,15 @@ func (c *c20) isolation(tape *kernel.Tape, n int) {
 		return desc
 	})
 	world.RestoreDefaultEndpoints()
+}
+
+func issuerOf(fp string) string {
+	for _, part := range strings.Split(fp, "; ") {
+		if strings.HasPrefix(part, "issuer=") {
+			return strings.TrimPrefix(part, "issuer=")
+		}
+	}
+	return ""
 }
 
 // raceMix starts seeded goroutines from a barrier on shared instances. Any data race is reported by the race
@@ -436,6 +535,29 @@ func raceMix(w *world.World, tape *kernel.Tape, mix string) {
 				}
 			})
 		}
+	case "construct-issuer":
+		// providers for several tenants are created at once; the list of forwarding headers is one shared value
+		shared := []string{"x-other", "x-tenant"}
+		n := ch.Range(3, 6)
+		for i := 0; i < n; i++ {
+			kind := ch.Int(3)
+			add(func() {
+				var iss func(bool) (op.IssuerFromRequest, error)
+				switch kind {
+				case 0:
+					iss = op.IssuerFromForwardedOrHost("", op.WithIssuerFromCustomHeaders(shared...))
+				case 1:
+					iss = op.IssuerFromForwardedOrHost("")
+				default:
+					iss = op.IssuerFromHost("")
+				}
+				if p, err := op.NewProvider(w.Conf, w.OP.Storage, iss, op.WithLogger(world.Discard)); err == nil {
+					req := httptest.NewRequest("GET", "https://fp.sim/.well-known/openid-configuration", nil)
+					req.Header.Set("X-Tenant", "host=tenant.sim")
+					p.ServeHTTP(httptest.NewRecorder(), req)
+				}
+			})
+		}
 	case "construct":
 		n := ch.Range(3, 6)
 		for i := 0; i < n; i++ {
@@ -469,7 +591,7 @@ func raceMix(w *world.World, tape *kernel.Tape, mix string) {
 	wg.Wait()
 }
 
-var raceMixes = []string{"provider", "rp", "rp-handlers", "rs-keyset", "construct"}
+var raceMixes = []string{"provider", "rp", "rp-handlers", "rs-keyset", "construct", "construct-issuer"}
 
 func RunC20(t *testing.T, spec kernel.Spec) *kernel.Outcome {
 	out := kernel.NewOutcome(spec)
